@@ -282,8 +282,35 @@ def constraint_class(cls, sub):
     return _SUBCLASSES[cls]
 
 
+class _FreshTuples(dict):
+    """name -> a vertex identifier that is built anew at every look-up: equal
+    to, but never the same object as, the identifier used elsewhere for the
+    vertex (programs that build their vertex keys at run time, e.g.
+    (population, index) tuples)."""
+
+    def __init__(self, names):
+        dict.__init__(self, ((n, i) for i, n in enumerate(names)))
+
+    def _make(self, n):
+        return tuple(["vertex", dict.__getitem__(self, n), n])
+
+    def __getitem__(self, n):
+        return self._make(n)
+
+    def get(self, n, default=None):
+        return self._make(n) if n in self else default
+
+    def values(self):
+        return [self._make(n) for n in self]
+
+    def items(self):
+        return [(n, self._make(n)) for n in self]
+
+
 def vertex_objects(names, kind):
     """name -> vertex object handed to rig."""
+    if kind == "eqtuple":
+        return _FreshTuples(names)
     if kind == "idobj":
         return dict((n, IdObj(n)) for n in names)
     if kind == "str":
@@ -297,4 +324,4 @@ def vertex_objects(names, kind):
     raise ValueError(kind)
 
 
-VERTEX_KINDS = ["str", "str", "tuple", "obj", "int"]
+VERTEX_KINDS = ["str", "str", "tuple", "obj", "int", "eqtuple"]
